@@ -18,16 +18,18 @@
 (*   Continue(t, c), StopThreads, SetBreak, RmBreak    the client          *)
 (* Variant "found": the thread marks itself suspended (running = FALSE)    *)
 (*   before the gate and then waits unconditionally - a Continue which     *)
-(*   arrives at the gate sets running and wakes nobody.                    *)
+(*   arrives at the gate sets running and wakes nobody; breakpoints are    *)
+(*   not looked at while a call is stepped over / out of.                  *)
 (* Variant "code": the flag is written under the lock of the condition     *)
 (*   and the thread waits while it is not set.                             *)
 (***************************************************************************)
-EXTENDS Integers, Sequences, FiniteSets, TLC
+EXTENDS Integers, Sequences, FiniteSets, TLC, Json
 
 CONSTANTS Threads, Prog,        \* Prog[t]: the visits of thread t
           Lines,                \* lines on which the client may set breakpoints
           MaxCmds,              \* bound on client commands
-          Variant
+          Variant,
+          RecordHist            \* keep the behaviour in hist (simulation / export for the follow mode only)
 
 VARIABLES ip,       \* ip[t]: next visit
           pc,       \* "run" | "gate" | "waiting" | "resumed" | "done" | "killed"
@@ -36,9 +38,10 @@ VARIABLES ip,       \* ip[t]: next visit
           bp,       \* active breakpoints
           ncmd,     \* client commands issued
           susp,     \* history: <<t, line>> of suspensions (gate reached)
-          missed    \* history: <<t, line>> where a thread arrived from another line at an active breakpoint and did not suspend
+          missed,   \* history: <<t, line>> where a thread arrived from another line at an active breakpoint and did not suspend
+          hist      \* the actions taken with the projection of the state they lead to (only if RecordHist)
 
-vars == <<ip, pc, is, depth, bp, ncmd, susp, missed>>
+vars == <<ip, pc, is, depth, bp, ncmd, susp, missed, hist>>
 
 None == [on |-> FALSE, cmd |-> "Stop", running |-> TRUE, line |-> 0, sos |-> 0, fresh |-> FALSE]
 ContTypes == {"Resume", "StepIn", "StepOver", "StepOut"}
@@ -46,6 +49,7 @@ ContTypes == {"Resume", "StepIn", "StepOver", "StepOut"}
 Init ==
   /\ ip = [t \in Threads |-> 1] /\ pc = [t \in Threads |-> "run"] /\ is = [t \in Threads |-> None]
   /\ depth = [t \in Threads |-> 0] /\ bp \in SUBSET Lines /\ ncmd = 0 /\ susp = <<>> /\ missed = {}
+  /\ hist = IF RecordHist THEN <<[a |-> "Init", t |-> 0, arg |-> "", bp |-> bp]>> ELSE <<>>
 
 Cur(t) == Prog[t][ip[t]]
 PrevLine(t) == IF ip[t] = 1 THEN 0 ELSE Prog[t][ip[t] - 1].line
@@ -77,9 +81,12 @@ VisitDecision(t, l) ==
   ELSE IF s.cmd \in {"Stop", "StepIn", "StepOver"} THEN
        IF s.line # l \/ s.cmd = "Stop" THEN ToGate(t, l, [s EXCEPT !.line = l, !.fresh = FALSE]) /\ UNCHANGED missed
        ELSE Advance(t) /\ UNCHANGED <<is, depth, susp, missed>>
-  ELSE \* StepOut: the thread runs on whatever the line
-       /\ Advance(t) /\ UNCHANGED <<is, depth, susp>>
-       /\ missed' = IF l \in bp /\ PrevLine(t) # l THEN missed \cup {<<t, l>>} ELSE missed
+  ELSE \* StepOut (also the inside of a call which is stepped over): only a breakpoint on another line than the one the
+       \* thread was continued from stops it; the pinned code did not look at breakpoints here at all
+       IF Variant # "found" /\ l \in bp /\ s.line # l
+       THEN ToGate(t, l, [s EXCEPT !.cmd = "Stop", !.line = l, !.fresh = FALSE]) /\ UNCHANGED missed
+       ELSE /\ Advance(t) /\ UNCHANGED <<is, depth, susp>>
+            /\ missed' = IF l \in bp /\ PrevLine(t) # l THEN missed \cup {<<t, l>>} ELSE missed
 
 Visit(t) == pc[t] = "run" /\ Cur(t).k = "visit" /\ VisitDecision(t, Cur(t).line) /\ UNCHANGED <<bp, ncmd>>
 
@@ -138,12 +145,23 @@ StopThreads ==
 SetBreak(l) == ncmd < MaxCmds /\ ncmd' = ncmd + 1 /\ l \notin bp /\ bp' = bp \cup {l} /\ UNCHANGED <<ip, pc, is, depth, susp, missed>>
 RmBreak(l) == ncmd < MaxCmds /\ ncmd' = ncmd + 1 /\ l \in bp /\ bp' = bp \ {l} /\ UNCHANGED <<ip, pc, is, depth, susp, missed>>
 
-ThreadStep(t) == Visit(t) \/ StepIn(t) \/ StepOut(t) \/ Park(t) \/ Resumed(t)
+\* an action together with its entry in the history: what the harness has to do and what it must then observe
+Act(name, t, arg, A) ==
+  /\ A
+  /\ hist' = IF RecordHist
+             THEN Append(hist, [a |-> name, t |-> t, arg |-> arg,
+                                pc |-> [x \in Threads |-> pc'[x]], ip |-> [x \in Threads |-> ip'[x]],
+                                on |-> [x \in Threads |-> is'[x].on], running |-> [x \in Threads |-> is'[x].running],
+                                depth |-> [x \in Threads |-> depth'[x]]])
+             ELSE hist
+
+ThreadStep(t) == \/ Act("Visit", t, "", Visit(t)) \/ Act("StepIn", t, "", StepIn(t)) \/ Act("StepOut", t, "", StepOut(t))
+                 \/ Act("Park", t, "", Park(t)) \/ Act("Resumed", t, "", Resumed(t))
 Next ==
   \/ \E t \in Threads : ThreadStep(t)
-  \/ \E t \in Threads, c \in ContTypes : Continue(t, c)
-  \/ StopThreads
-  \/ \E l \in Lines : SetBreak(l) \/ RmBreak(l)
+  \/ \E t \in Threads, c \in ContTypes : Act("Continue", t, c, Continue(t, c))
+  \/ Act("StopThreads", 0, "", StopThreads)
+  \/ \E l \in Lines : Act("SetBreak", 0, ToString(l), SetBreak(l)) \/ Act("RmBreak", 0, ToString(l), RmBreak(l))
 
 Spec == Init /\ [][Next]_vars
 
@@ -156,4 +174,8 @@ ReportedIsSuspended == \A t \in Threads : (is[t].on /\ ~is[t].running) => pc[t] 
 \* stopping all threads leaves nobody suspended
 \* arriving from another line at an active breakpoint always suspends
 BreakpointsSuspend == missed = {}
+\* behaviour export for the follow mode: the history is printed when nothing can happen any more
+Export == (~ENABLED Next) => PrintT(<<"BEHAVIOUR", ToJson(hist)>>)
+\* the same for the behaviour which loses a wake-up (found variant): replayed on the real code
+ExportLost == NoLostWakeup \/ PrintT(<<"BEHAVIOUR", ToJson(hist)>>)
 =============================================================================
